@@ -19,6 +19,8 @@ META = {
 
 def run(s):
     K.suite_workload(s)
+    K.pair_histories(s)
+    K.resend_after_reorder(s, 4 if s.tier == 'quick' else 5)
     if s.tier == 'quick':
         K.story_grid(s, 4, layouts=('none', 'between', 'everywhere'), kmax=3, full=False)
         K.fuzz(s, 240, K.kind_weights(story=1.0, item=0.15, other=0.2), steps=(5, 25))
